@@ -3,7 +3,7 @@
    Matcher.v (boundary matcher), Limits.v (limits / status codes), Link.v (generated-from-source leafs).
    Model: Defs.v (per-byte step of multipart_parser::consume, header parser, request-level driver
    on_content_start / on_content_progress, urlencoded splitter). *)
-From CppcmsV Require Import Base.Tac Base.CSem Base.Sweep C12.Defs C12.Proofs C12.Matcher C12.Limits C12.Roundtrip C12.Filter C12.Urlenc C12.Fuel C12.Framing C12.Domain C12.ResDefs C12.ResProofs C12.ResProofs2 C12.MoreDefs C12.UrlAny C12.CType C12.Abort C12.AbortCut C12.Link C12.LinkLimits gen.Gen_c12 gen.Gen_c12lim.
+From CppcmsV Require Import Base.Tac Base.CSem Base.Sweep C12.Defs C12.Proofs C12.Matcher C12.Limits C12.Roundtrip C12.Filter C12.Urlenc C12.Fuel C12.Framing C12.Domain C12.ResDefs C12.ResProofs C12.ResProofs2 C12.MoreDefs C12.UrlAny C12.CType C12.Abort C12.AbortCut C12.FaultDefs C12.FaultProofs C12.Stream C12.Link C12.LinkLimits gen.Gen_c12 gen.Gen_c12lim.
 Local Open Scope N_scope.
 
 (* ------------------------------------------------------------------------------------------ *)
@@ -759,3 +759,80 @@ Theorem aborting_filter_cut_anywhere : forall bnd lim k a b s acc, inv s -> b <>
   feed_ab bnd lim k s (a ++ b) acc = then_feed_ab bnd lim k (feed_ab bnd lim k s a acc) b.
 Proof. exact feed_ab_app. Qed.
 Print Assumptions aborting_filter_cut_anywhere.
+
+(* ------------------------------------------------------------------------------------------ *)
+(* 12. temporary files when file operations FAIL (FaultDefs.v): fopen / fwrite / fflush / fclose *)
+(*     may fail at any point (a failing fwrite writes nothing, a failing fclose still releases   *)
+(*     the descriptor, remove() is assumed to work).  A failed write - since /repo eca1034 also   *)
+(*     a failed final flush - makes the parser answer no_room_left, which http::request turns    *)
+(*     into 413.  The model follows the repaired code (6c3ce6d, eca1034).                        *)
+(* ------------------------------------------------------------------------------------------ *)
+(* whatever fails while an entry is written - under ANY schedule of failing fopen / fwrite - the object is pure
+   memory, or one created and open temporary file (wstate; the spill itself may have failed) *)
+Theorem object_state_under_any_write_faults : forall limit data sched,
+  wstate (fst (fo_write_s limit fo_new data sched)).
+Proof. intros. apply wstate_write_s. apply wstate_new. Qed.
+Print Assumptions object_state_under_any_write_faults.
+(* EVERY such object, whatever fails during close (the pending write, fflush, fclose): when it is destroyed no
+   descriptor stays open, the temporary file is removed exactly once, it was created at most once *)
+Theorem destroyed_object_leaves_nothing_whatever_fails : forall wf sf cf o, wstate o -> nothing_left (fo_destroy_f wf sf cf o).
+Proof. exact destroy_leaves_nothing. Qed.
+Print Assumptions destroyed_object_leaves_nothing_whatever_fails.
+Theorem written_then_destroyed_leaves_nothing : forall limit data sched wf sf cf,
+  nothing_left (fo_destroy_f wf sf cf (fst (fo_write_s limit fo_new data sched))).
+Proof. intros. apply destroy_leaves_nothing. apply wstate_write_s. apply wstate_new. Qed.
+Print Assumptions written_then_destroyed_leaves_nothing.
+(* regression Example (was failed_spill_leaves_temp_file_refuted): limit 2, the third byte triggers to_file(), its
+   fwrite fails - file::close() as it was (fo_destroy_old) kept the file, the repaired one leaves nothing *)
+Example failed_spill_regression_example :
+  let o := fst (fo_write_s 2 fo_new [1;2;3] [(false,false);(false,false);(true,false)]) in
+  half_spilled o /\ fo_on_disk (fo_destroy_old false false false o) = true /\ nothing_left (fo_destroy_f false false false o).
+Proof. exact failed_spill_regression. Qed.
+(* a failed final flush is reported: a run that does not fail (no no_room_left) has flushed every completed entry
+   successfully - its content can be read back in full *)
+Theorem failed_final_flush_is_reported : forall limit q ofail sfail fs,
+  fr_failed (write_entries_q limit q ofail sfail fs) = false ->
+  Forall (fun p => snd p = true) (fr_done (write_entries_q limit q ofail sfail fs)).
+Proof. exact final_flush_reported. Qed.
+Print Assumptions failed_final_flush_is_reported.
+(* regression Example (was final_flush_fault_is_reported_refuted): quota 2, a 3-byte entry with limit 1 - now the run
+   fails with the entry still in progress; the parser as it was accepted it with unreadable content *)
+Example final_flush_regression_example :
+  let r := write_entries_q 1 (Some 2) false false [mkfile [97] [] [] [1;2;3]] in
+  let r0 := write_entries_old 1 (Some 2) false false [mkfile [97] [] [] [1;2;3]] in
+  fr_failed r = true /\ fr_done r = [] /\ fr_failed r0 = false /\ map snd (fr_done r0) = [false].
+Proof. exact final_flush_regression. Qed.
+
+(* ------------------------------------------------------------------------------------------ *)
+(* 13. state a content filter leaves behind: position and failbit of a part's input stream       *)
+(*     (MoreDefs.v sstate / after_read / post_value / handed); model of the repaired read_file    *)
+(*     (/repo ebeb88c: clear() before seekg(0))                                                  *)
+(* ------------------------------------------------------------------------------------------ *)
+(* an adversarial filter may leave ANY position and ANY failbit: the value copied into post() is the whole part *)
+Theorem field_delivered_whole_in_every_stream_state : forall data s, post_value data s = data.
+Proof. exact post_value_whole. Qed.
+Print Assumptions field_delivered_whole_in_every_stream_state.
+(* every filter behaviour (read all / half at buffer level, seek to the end / the middle, stream-level read to the
+   end) in on_new_file and on_data_ready *)
+Theorem field_whole_after_any_filter : forall fnew fready data,
+  post_value data (fst (part_through_filter fnew fready data)) = data.
+Proof. exact field_whole_after_filter. Qed.
+Print Assumptions field_whole_after_any_filter.
+(* on_data_ready always starts at the first byte of the part (unless failbit was set in on_new_file) *)
+Theorem on_data_ready_sees_the_whole_part : forall fnew data, fnew <> RStream ->
+  snd (part_through_filter fnew RAll data) = data /\ snd (part_through_filter fnew RStream data) = data.
+Proof. exact ready_sees_whole. Qed.
+Print Assumptions on_data_ready_sees_the_whole_part.
+(* regression Example (was field_whole_after_any_filter_refuted): read_file as it was (seekg(0) only) delivered the
+   field empty after a stream-level read to its end; now whole *)
+Example field_cut_regression_example :
+  post_value_old [1;2;3] (fst (part_through_filter RNone RStream [1;2;3])) = [] /\
+  post_value_old [1;2;3] (fst (part_through_filter RStream RAll [1;2;3])) = [] /\
+  post_value [1;2;3] (fst (part_through_filter RNone RStream [1;2;3])) = [1;2;3] /\
+  post_value [1;2;3] (fst (part_through_filter RStream RAll [1;2;3])) = [1;2;3].
+Proof. exact field_cut_regression. Qed.
+(* an uploaded file is handed over at the position the filter left: read from there it is the tail; its content
+   is intact (the harness reads all of it back after clear() + seekg(0) in every case) *)
+Theorem uploaded_file_handed_at_the_position_the_filter_left : forall data s, handed data s = skipn (s_pos s) data.
+Proof. exact handed_is_tail. Qed.
+Print Assumptions uploaded_file_handed_at_the_position_the_filter_left.
